@@ -17,10 +17,33 @@ import (
 
 // ---------------------------------------------------------------- shared generator helpers
 
-func gPick[T any](rt *rapid.T, pool []T, label string) T {
-	return pool[rapid.IntRange(0, len(pool)-1).Draw(rt, label)]
+// rapid's integer generators favour small values and the bounds on purpose (IntRange(0,99) is
+// below 10 in about 42% of the draws): fine for sizes, wrong for "take this branch in 4% of the
+// cases". Choices between alternatives are therefore drawn from fair bits.
+func gBits(rt *rapid.T, n int, label string) int {
+	v := 0
+	for _, b := range rapid.SliceOfN(rapid.Bool(), n, n).Draw(rt, label) {
+		v <<= 1
+		if b {
+			v |= 1
+		}
+	}
+	return v
 }
-func gPct(rt *rapid.T, p int) bool { return rapid.IntRange(0, 99).Draw(rt, "pct") < p }
+
+// gInt draws lo..hi uniformly.
+func gInt(rt *rapid.T, lo, hi int, label string) int {
+	if hi <= lo {
+		return lo
+	}
+	return lo + gBits(rt, 12, label)*(hi-lo+1)/4096
+}
+
+// gRoll draws 0..99 uniformly.
+func gRoll(rt *rapid.T, label string) int { return gInt(rt, 0, 99, label) }
+
+func gPick[T any](rt *rapid.T, pool []T, label string) T { return pool[gInt(rt, 0, len(pool)-1, label)] }
+func gPct(rt *rapid.T, p int) bool                      { return gRoll(rt, "pct") < p }
 
 var gLayouts = [][]int{{0, 1}, {0, 0, 1}, {0, 1, 2}, {0, 0, 1, 2}, {0, 1, 1, 2}, {0, 1, 2, 2}}
 
@@ -70,9 +93,9 @@ func c01Gen(rt *rapid.T) wProg {
 	p.Cfg = wConfig{Users: 3, Root: gPct(rt, 30), Media: true}
 	p.Sess = append([]int(nil), gPick(rt, gLayouts, "layout")...)
 	gPrologue(rt, &p, 20, 85, 60)
-	n := rapid.IntRange(2, 14).Draw(rt, "nops")
+	n := gInt(rt, 2, 14, "nops")
 	pub := func() wOp {
-		s := rapid.IntRange(0, len(p.Sess)-1).Draw(rt, "s")
+		s := gInt(rt, 0, len(p.Sess)-1, "s")
 		op := wOp{K: "pub", S: s, T: gTopicFor(rt, p.Sess[s], p.Cfg.Root && p.Sess[s] == 0 && gPct(rt, 30))}
 		if gPct(rt, 12) {
 			op.F = true
@@ -87,11 +110,11 @@ func c01Gen(rt *rapid.T) wProg {
 		return op
 	}
 	for i := 0; i < n; i++ {
-		switch x := rapid.IntRange(0, 99).Draw(rt, "opk"); {
+		switch x := gInt(rt, 0, 99, "opk"); {
 		case x < 42:
 			p.Ops = append(p.Ops, pub())
 		case x < 56:
-			k := rapid.IntRange(2, 4).Draw(rt, "npar")
+			k := gInt(rt, 2, 4, "npar")
 			var par []wOp
 			used := map[int]bool{}
 			for j := 0; j < k; j++ {
@@ -108,12 +131,12 @@ func c01Gen(rt *rapid.T) wProg {
 				p.Ops = append(p.Ops, par...)
 			}
 		case x < 59:
-			s := rapid.IntRange(0, len(p.Sess)-1).Draw(rt, "s")
+			s := gInt(rt, 0, len(p.Sess)-1, "s")
 			p.Ops = append(p.Ops, wOp{K: "leave", S: s, T: gTopicFor(rt, p.Sess[s], false)})
 		case x < 61:
 			// one participant deletes the P2P subscription, the topic is unloaded, loaded back by a
 			// new {sub} and numbering goes on (the topic row exists, one subscription is missing)
-			s := rapid.IntRange(0, len(p.Sess)-1).Draw(rt, "s")
+			s := gInt(rt, 0, len(p.Sess)-1, "s")
 			if u := p.Sess[s]; u <= 1 {
 				pt := fmt.Sprintf("p%d", 1-u)
 				p.Ops = append(p.Ops, wOp{K: "leave", S: s, T: pt, F: true}, wOp{K: "reload", T: "p1"})
@@ -123,7 +146,7 @@ func c01Gen(rt *rapid.T) wProg {
 				p.Ops = append(p.Ops, wOp{K: "sub", S: s, T: pt}, wOp{K: "pub", S: s, T: pt})
 			}
 		case x < 68:
-			s := rapid.IntRange(0, len(p.Sess)-1).Draw(rt, "s")
+			s := gInt(rt, 0, len(p.Sess)-1, "s")
 			op := wOp{K: "sub", S: s, T: gTopicFor(rt, p.Sess[s], false)}
 			if p.Cfg.Root && p.Sess[s] == 0 && gPct(rt, 30) {
 				op.Obo = 2
@@ -134,12 +157,12 @@ func c01Gen(rt *rapid.T) wProg {
 		case x < 78:
 			p.Ops = append(p.Ops, wOp{K: "restart"})
 		case x < 86:
-			p.Ops = append(p.Ops, wOp{K: "fault", N: rapid.IntRange(1, 5).Draw(rt, "k"),
+			p.Ops = append(p.Ops, wOp{K: "fault", N: gInt(rt, 1, 5, "k"),
 				A: gPick(rt, []string{"", "", "TopicUpdateOnMessage", "MessageSave", "SubsUpdate", "FileLinkAttachments"}, "m")}, pub())
 		case x < 92:
-			p.Ops = append(p.Ops, wOp{K: "crash", N: rapid.IntRange(1, 4).Draw(rt, "k")}, pub())
+			p.Ops = append(p.Ops, wOp{K: "crash", N: gInt(rt, 1, 4, "k")}, pub())
 		case x < 96:
-			s := rapid.IntRange(0, len(p.Sess)-1).Draw(rt, "s")
+			s := gInt(rt, 0, len(p.Sess)-1, "s")
 			p.Ops = append(p.Ops, wOp{K: "get", S: s, T: gTopicFor(rt, p.Sess[s], false), A: gPick(rt, []string{"data", "desc", "data desc"}, "what")})
 		default:
 			p.Ops = append(p.Ops, wOp{K: "tick", N: gPick(rt, []int{50, 1000, 5000}, "ms")})
